@@ -41,6 +41,7 @@ def run(ctx, chk):
     chk.rule("C14.R3", "driver gates dominate loading and execution", floor=3)
     chk.rule("C14.R4", "preprocess turns every parser error into Err", floor=1)
     chk.rule("C14.R5", "forward references are recorded without loss until the driver checks them", floor=2)
+    chk.rule("C14.R6", "a label can never be defined inside a macro expansion (so a data label is always known when a jump to it is assembled)", floor=2)
 
     def cond_rule(nt, cond_pred, name, desc):
         if nt not in GA.nts:
@@ -142,6 +143,7 @@ def run(ctx, chk):
                 chk.ok("C14.R2", label, f"classes {classes or ['-']}, memory operands {mems}")
 
     forward_reference_record(ctx, chk)
+    no_label_in_expansion(ctx, chk)
     # ---- R3 driver gates
     drv = ctx.program.by_name.get(("bin", "driver::driver::CMDDriver::run"))
     if drv is None:
@@ -312,3 +314,123 @@ def forward_reference_record(ctx, chk):
                           f"{GA.g['file']}:{p['line']}")
         else:
             chk.ok("C14.R5", label, "unknown label => recorded in undefined_labels (or rejected)")
+
+
+def regex_can_match_char(term, ch):
+    """can a string of the terminal's language contain the character? (over-approximation: True when unsure)"""
+    import re as _re
+    try:
+        import sre_parse
+        import sre_constants as C
+    except ImportError:  # pragma: no cover
+        return True
+    m = _re.match(r'^r#"(.*)"#$', term)
+    if not m:
+        return ch in term.strip('"')
+    rx = m.group(1).replace("[[:ascii:]]", "[\\x00-\\x7f]").replace("[[:print:]]", "[ -~]")
+    try:
+        tree = sre_parse.parse(rx)
+    except Exception:
+        return True
+    code = ord(ch)
+
+    def walk(items):
+        for op, av in items:
+            name = str(op)
+            if name == "ANY":
+                return True
+            if name == "LITERAL" and av == code:
+                return True
+            if name == "NOT_LITERAL" and av != code:
+                return True
+            if name == "IN":
+                neg = False
+                hit = False
+                for o2, a2 in av:
+                    n2 = str(o2)
+                    if n2 == "NEGATE":
+                        neg = True
+                    elif n2 == "LITERAL" and a2 == code:
+                        hit = True
+                    elif n2 == "RANGE" and a2[0] <= code <= a2[1]:
+                        hit = True
+                    elif n2 == "CATEGORY":
+                        hit = hit or ("NOT" in str(a2))
+                if hit != neg:
+                    return True
+            if name in ("MAX_REPEAT", "MIN_REPEAT", "POSSESSIVE_REPEAT"):
+                if walk(av[2]):
+                    return True
+            if name == "SUBPATTERN":
+                if walk(av[3]):
+                    return True
+            if name == "BRANCH":
+                for alt in av[1]:
+                    if walk(alt):
+                        return True
+        return False
+    return walk(tree)
+
+
+def no_label_in_expansion(ctx, chk):
+    """C14.R6: jmps_loops rejects a jump to a DATA label only if the label is already defined when the jump is read; a
+    forward reference is checked by the driver for existence only.  That is sound as long as a data label cannot be
+    defined after code: the grammar puts data directives first (checked on the LR tables), and the text handed to the
+    nested parse of a macro expansion - the macro body token with the arguments' texts substituted - cannot contain a
+    label token because neither can contain ':'."""
+    from asm import GramEval
+    from astev import Str, tmpl_str
+    from lang import parse_lines
+    GA = ctx.gram("preprocessor")
+    E = GramEval(GA)
+    gp = ctx.facts.gram_path("preprocessor")
+    res = parse_lines(gp, ["start: hlt\nx: db 5\n", "x: db 5\nstart: hlt\n"])
+    if not res[0]["ok"] and res[1]["ok"]:
+        chk.ok("C14.R6", "grammar:data-before-code", "`code ... label: db` is not a sentence of the assembler grammar, `label: db ... code` is")
+        top_ok = True
+    else:
+        top_ok = False
+    colon_sources = []
+    if "macro_def" in GA.nts:
+        for k, p in enumerate(GA.productions("macro_def")):
+            for sy in p["symbols"]:
+                if sy["t"] == "term" and sy["name"].startswith("r#") and regex_can_match_char(sy["name"], ":"):
+                    colon_sources.append(f"macro body token {sy['name']}")
+    if "general_string" in GA.nts:
+        for k, p in enumerate(GA.productions("general_string")):
+            for q in E.prod_paths("general_string", k):
+                if isinstance(q.ret, Str):
+                    for t in q.ret.t:
+                        if any(part[0] == "lit" and ":" in part[1] for part in t):
+                            colon_sources.append(f"macro argument `{tmpl_str(t)}` ({GA.prod_label('general_string', k)})")
+                        if any(part[0] == "hole" and part[1] in ("unknown", "replaced") for part in t):
+                            chk.undecided_("C14.R6", GA.prod_label("general_string", k), "argument text not followed by the action evaluator")
+    # does the driver test the type of a forward-referenced label?
+    drv = ctx.program.by_name.get(("bin", "driver::driver::CMDDriver::run"))
+    types_checked = False
+    if drv is not None:
+        from cfgtools import Defs, origin
+        # a get_type / LabelType discriminant read inside the loop over undefined labels
+        cfg = M.CFG(drv)
+        pb, _ = find_parse_call(drv, "DataParser::parse")
+        for bi, t in M.calls_in(drv):
+            d = t[1].get("def") or ""
+            if d.endswith("HashMap::<K, V, S, A>::get") and "Label" in (t[1].get("inst") or ""):
+                # label lookups before loading: the one inside a loop is the undefined-label gate
+                reach = cfg.reachable_from(bi, avoid={pb} if pb is not None else set())
+                in_loop = any(bi in cfg.reachable_from(s_) for s_ in cfg.succ[bi]) and bi in cfg.reachable_from(cfg.succ[bi][0]) if cfg.succ[bi] else False
+                if in_loop:
+                    for b2 in reach:
+                        for s_ in drv["blocks"][b2]["stmts"]:
+                            if s_[0] == "assign" and s_[2][0] == "disc" and s_[2][1]["ty"].endswith("LabelType") and b2 in cfg.reachable_from(bi) and bi in cfg.reachable_from(b2):
+                                types_checked = True
+    if top_ok and not colon_sources:
+        chk.ok("C14.R6", "expansion:no-label-token", "neither the macro body token nor any argument text can contain ':': no label is ever defined by a nested parse")
+    elif types_checked:
+        chk.ok("C14.R6", "driver:forward-reference-type", "the driver checks the type of forward-referenced labels")
+    else:
+        why = colon_sources[0] if colon_sources else "the grammar accepts a labelled data directive after code"
+        chk.violation("C14.R6", "macro expansion" if colon_sources else "grammar", "data-label-definable-after-jump",
+                      f"a label can be defined after code ({why}): a jump assembled before a DATA label of that name exists is recorded as a forward reference, and the "
+                      f"driver only checks that the name exists, not that it is a code label - the invalid program is accepted and fails (or silently misbehaves) at run time",
+                      GA.g["file"], witness="je buf ... macro mk(v) -> buf: db v <- ... mk(1)")
